@@ -114,7 +114,7 @@ TraceReadStream ==
     /\ (cons = BodyLen(cur) /\ Line.p > 0) => Line.eof   \* nor late: a read at the end reports EOF
     /\ Denied(cur) => Line.k = 0
     /\ ~eofSeen \/ Line.k = 0
-    /\ Line.rd = -1 \/ (rd <= Line.rd /\ Line.rd <= reqs[cur].end /\ Line.rd <= sent)   \* never consumes beyond the body
+    /\ Line.rd = -1 \/ (rd <= Line.rd /\ (Line.rd <= reqs[cur].end \/ Over(cur)) /\ Line.rd <= sent)   \* never consumes beyond the body
     /\ IF Line.k = 0 THEN UNCHANGED cons ELSE cons' = cons + Line.k
     /\ cons + Line.k <= BodyLen(cur)
     /\ rd' = (IF Line.rd = -1 THEN rd ELSE Line.rd)
@@ -127,7 +127,9 @@ TraceHandleEnd ==
     /\ HandleEnd
     /\ cfg.streaming \/ readDone \/ Beh(cur) = "panic"
     \* trailers are visible once the whole chunked body was read
-    /\ (~cfg.streaming \/ eofSeen) => Line.trailers = Expected(script[cur], cur).trailers
+    \* (fields that no Trailer header announced may be discarded: RFC 7230 4.1.2)
+    /\ (~cfg.streaming \/ eofSeen) => \/ Line.trailers = Expected(script[cur], cur).trailers
+                                       \/ (~Announced(script[cur]) /\ Line.trailers = << >>)
     /\ Consume /\ KeepAux
 
 \* C04: what a response program must look like on the wire.  A program is
@@ -172,7 +174,7 @@ TraceWriteFail == /\ active /\ HasLine /\ Line.ev = "WriteFailed" /\ WriteFail /
 
 TraceClosed ==
     /\ active /\ HasLine /\ Line.ev = "ConnClosed"
-    /\ \/ CloseAfter /\ unread' = (unread \/ Denied(cur))   \* a refused body ends the connection too
+    /\ \/ CloseAfter /\ unread' = (unread \/ Denied(cur) \/ Over(cur))   \* a refused or oversized streamed body ends the connection too
        \/ phase = "after" /\ ~LastClose /\ CloseUnread /\ unread' = TRUE
        \/ IdleClose /\ UNCHANGED unread
        \/ AbortPartial /\ UNCHANGED unread
